@@ -9,7 +9,7 @@
            writefin <text> <raw> <value>                  -> res ... | noparse
    spec:   render <spelling> <addr>                       -> <text>
            wf <spelling> <addr>                           -> <wf_addr 0/1> <wf_spelling 0/1>
-           reset | file <num> <ft> <ew> <words as bytes>  -> ok
+           reset | file <num> <ft> <ew> <words as bytes>  -> ok      (more <num> <words as bytes> appends: short lines parse fast)
            exec <message-router request bytes>            -> reply <bytes>          (table updated)
            lastcmd                                        -> cmd <fnc> <size> <file> <ft|?> <elem> <sub> <rest> | badaddr | garbage | nocmd
            dump <num>                                     -> file <ft> <ew> <words as bytes> | nofile
@@ -200,6 +200,14 @@ Definition handle (st : state) (ts : list tok) : state * list tok :=
                 ({| st_table := st_table st ++ [fl]; st_last := st_last st |}, [sym "ok"])
             | None => (st, bad "ftype")
             end
+        | _ => (st, bad "args")
+        end
+      else if is_sym "more" cmd then
+        match args with
+        | [TInt num; TBytes ws] =>
+            let add := bytes_to_words ws in
+            ({| st_table := map (fun f => if df_num f =? num then set_words f (df_words f ++ add) else f) (st_table st);
+                st_last := st_last st |}, [sym "ok"])
         | _ => (st, bad "args")
         end
       else if is_sym "exec" cmd then
